@@ -693,8 +693,10 @@ pub fn shrink(def: &'static PropertyDef, case: &Case, v: &Violation, budget: usi
             }
         }
     }
-    // program source lines
-    if best.program.source.is_some() && best.program.kind != "corpus-json" {
+    // program source lines - not where the oracle is built into the program text (C12, C13: numbered sites
+    // whose surrounding lines say what must happen): dropping the statement of a site but keeping its marker
+    // lines would "reproduce" the signature with a program that no longer shows the defect
+    if best.program.source.is_some() && best.program.kind != "corpus-json" && !matches!(def.id, "C12" | "C13") {
         let mut chunk = 8usize;
         loop {
             let lines: Vec<String> = best.program.source.as_ref().unwrap().lines().map(|s| s.to_string()).collect();
